@@ -4,7 +4,8 @@ import OAuth2Model.Model.Adapter
 a real adapter showed: the request captured by the scripted server and the value the adapter returned.
 
   adp <adapter 0..3> <target> <accept> <content-type> <authorization|n> <request body>
-      ( r <status> <ct|n> <body>  |  f <0 refused|1 closed-before-reply|3 garbage-status-line>  |  f 2 <status> <ct|n> )
+      ( r <status> <ct|n> <body>  |  f <0 refused|1 closed-before-reply|3 garbage-status-line>  |  f 2 <status> <ct|n>
+        |  f 4 <status> <ct|n> <decoded bytes sent before the cut inside a chunk> )
       `|`  ( n | q <method> <target> <accept list> <content-type list> <authorization list> <body> )
            ( ok <status> <ct|n> <body> | err <HttpClientError variant: Reqwest|Http|Io|Other|..> )
 
@@ -81,6 +82,9 @@ def parse : P Case := do
       | 1 => pure (.inr .closedBeforeReply)
       | 2 => do let st ← nat; let ct ← optBytes; pure (.inr (.truncatedBody { status := st, contentType := ct }))
       | 3 => pure (.inr .garbageStatusLine)
+      | 4 => do
+          let st ← nat; let ct ← optBytes; let rec ← bigBytes
+          pure (.inr (.truncatedChunked { status := st, contentType := ct } rec))
       | _ => failure
     else failure : P (WireReply ⊕ Fault))
   bar
@@ -136,6 +140,7 @@ def serverTag : WireReply ⊕ Fault → String
   | .inr .refused => "f-refused"
   | .inr .closedBeforeReply => "f-closed"
   | .inr (.truncatedBody _) => "f-truncated"
+  | .inr (.truncatedChunked _ _) => "f-cut-in-chunk"
   | .inr .garbageStatusLine => "f-garbage"
 
 /-- request direction: what the model says reaches the wire vs what the server captured -/
@@ -170,7 +175,9 @@ def run (args : List String) : String :=
       let mp := adapter .pinned c.a c.server
       let af := agrees mf c.returned
       let ap := agrees mp c.returned
-      if af && ap then s!"ok {idName c.a}-{serverTag c.server}{variantTag mf c.returned}-both"
+      if af && ap then
+        let vt := if variantTag mp c.returned == "-ev1" then "-ev1" else variantTag mf c.returned
+        s!"ok {idName c.a}-{serverTag c.server}{vt}-both"
       else if af then s!"ok {idName c.a}-{serverTag c.server}{variantTag mf c.returned}-fixed"
       else if ap then s!"ok {idName c.a}-{serverTag c.server}{variantTag mp c.returned}-pinned"
       else diff "returned" (showOutcome mf) (showReturned c.returned)
